@@ -152,6 +152,7 @@ theorem countsOk_step (s : St) (e : Ev) (h : CountsOk s) : CountsOk (step s e).1
   cases hc : s.crashed
   · obtain ⟨h1, h2⟩ := h
     cases e with
+    | testRun i n => exact ⟨h1, h2⟩
     | testsStarted => exact ⟨h1, h2⟩
     | groupStarted t => exact ⟨h1, h2⟩
     | testStarted t =>
